@@ -162,15 +162,25 @@ func sharedOp(s *jsonapi.Schema, op string, p int) {
 	id := fmt.Sprintf("i%d", p)
 	switch op {
 	case "ParseURL":
-		u, err := jsonapi.NewURLFromRaw(s, "/t1?include=o.p,m&fields[t1]=a,o,m&sort=-a,n&page[size]=2")
+		u, err := jsonapi.NewURLFromRaw(s, "/t1?include=o.p,m&fields[t1]=a,o,m&sort=-a,n&page[size]=2&filter=lbl-"+id)
 		must(err)
-		_ = u.String()
+		if str := u.String(); !strings.Contains(str, "filter=lbl-"+id+"&") && !strings.HasSuffix(str, "filter=lbl-"+id) {
+			panic("the text of the URL carries another request's filter label: " + str)
+		}
 	case "UnmarshalDocument":
-		pl := `{"data":[{"type":"t1","id":"` + id + `","attributes":{"a":"x","n":3},"relationships":{"o":{"data":{"type":"t2","id":"u"}},"m":{"data":[{"type":"t2","id":"v"}]}}}],` +
+		pl := `{"data":[{"type":"t1","id":"` + id + `","meta":{"owner":"` + id + `"},"attributes":{"a":"x","n":3},"relationships":{"o":{"data":{"type":"t2","id":"u"}},"m":{"data":[{"type":"t2","id":"v"}]}}}],` +
 			`"included":[{"type":"t2","id":"u","attributes":{"b":"y"}},{"type":"t3","id":"w","attributes":{"c":null}},` +
 			`{"type":"t4","id":"q","attributes":{"d":"z"}},{"type":"t5","id":"e"}]}`
-		_, err := jsonapi.UnmarshalDocument([]byte(pl), s)
+		doc, err := jsonapi.UnmarshalDocument([]byte(pl), s)
 		must(err)
+		// what this request read stays its own while the next payload is read (by anybody)
+		_, err = jsonapi.UnmarshalResource([]byte(`{"type":"t1","id":"other","meta":{"owner":"other","more":1},"attributes":{"a":"y"}}`), s)
+		must(err)
+		first := doc.Data.(jsonapi.Collection).At(0)
+		if mh, ok := first.(jsonapi.MetaHolder); !ok || len(mh.Meta()) != 1 || mh.Meta()["owner"] != id ||
+			first.Get("id") != id || first.Get("a") != "x" {
+			panic("a resource read earlier changed when another payload was read")
+		}
 	case "UnmarshalPartial":
 		pl := `{"type":"t2","id":"` + id + `","attributes":{"b":"z"},"relationships":{"p":{"data":{"type":"t1","id":"x"}}}}`
 		r, err := jsonapi.UnmarshalPartialResource([]byte(pl), s)
@@ -207,12 +217,15 @@ func sharedOp(s *jsonapi.Schema, op string, p int) {
 		r1.Set("id", id)
 		r1.Set("m", []string{"v", "u"})
 		r2.Set("id", "u")
-		u, err := jsonapi.NewURLFromRaw(s, "/t1/"+id+"?include=m")
+		u, err := jsonapi.NewURLFromRaw(s, "/t1/"+id+"?include=m&filter=own-"+id)
 		must(err)
 		doc := &jsonapi.Document{Data: r1, RelData: map[string][]string{"t1": {"m", "o"}}}
 		doc.Include(r2)
-		_, err = jsonapi.MarshalDocument(doc, u)
+		out, err := jsonapi.MarshalDocument(doc, u)
 		must(err)
+		if !strings.Contains(string(out), "filter=own-"+id+"\"") {
+			panic("the self link carries another request's filter label: " + string(out))
+		}
 	case "GetType":
 		if s.GetType("t2").Name != "t2" || s.GetType("zz").Name != "" {
 			panic("GetType")
